@@ -180,6 +180,16 @@ def search(item, seed):
             why = f"evaluation raised {type(ex).__name__}: {ex}"
         if why:
             return dict(function="scene", input=case, observed=why)
+    # scene-level AP as the manager computes it (get_scene_result pools the frames per label): the C13 harness' cases (one-frame scene = frame score, counts add up)
+    import C13 as scenes
+    for _ in range(budget(25)):
+        case = scenes.gen(rnd)
+        try:
+            why = scenes.check(case)
+        except Exception as ex:
+            why = f"raised {type(ex).__name__}: {ex}"
+        if why:
+            return dict(function="manager-scene", input=case, observed=why)
     # the heading weight of a TP (APH): the C09 harness' cases, tilted objects included
     import C09 as heading
     w = heading.search(item, seed)
@@ -199,7 +209,13 @@ def search(item, seed):
 
 def replay(payload):
     i = payload["input"]
-    if payload["function"] == "heading":
+    if payload["function"] == "manager-scene":
+        import C13 as scenes
+        try:
+            why = scenes.check(i)
+        except Exception as ex:
+            why = f"raised {type(ex).__name__}: {ex}"
+    elif payload["function"] == "heading":
         import C09 as heading
         why = heading.check(i)
     elif payload["function"] == "pooled":
